@@ -174,8 +174,76 @@ def run(ctx: common.Ctx):
                      "the written file is not the processors applied line by line to the complete text",
                      {"pps": pps, "chunks": [text], "output": single_cache[key], "expected": ref})
     ctx.sample({"pps": cases[-1][0], "chunks": cases[-1][1], "output": impl_run(*cases[-1])})
+    run_files(ctx, drv)
     for p, c in cases[ncorpus + 5000: ncorpus + 5003]:
         ctx.sample({"pps": p, "chunks": c, "output": impl_run(p, c)})
+
+
+def impl_files(pps, files, scratch):
+    """The real `_generate_code`, once per file, with ONE shared list of processor objects (as in a real run)."""
+    import types
+    import nunavut._postprocessors as npp
+    from nunavut.jinja import DSDLCodeGenerator
+    gen = object.__new__(DSDLCodeGenerator)
+    gen._env = types.SimpleNamespace()
+    objs = [npp.TrimTrailingWhitespace() if p == "T" else npp.LimitEmptyLines(int(p[1:])) for p in pps]
+    for o in objs:  # a non-initial state, as left behind by earlier files of a run
+        if hasattr(o, "_empty_line_count"):
+            o._empty_line_count = 7
+    gen._post_processors = objs
+    out = []
+    for i, chunks in enumerate(files):
+        path = scratch / f"f{i}.txt"
+        if path.exists():
+            path.unlink()
+        gen._generate_code(path, None, (c for c in chunks), True)
+        with open(path, "r", encoding="utf-8", newline="") as fh:
+            out.append(fh.read())
+    return out
+
+
+def run_files(ctx, drv):
+    """Multi-file stream: the k-th file of a run must be post-processed as if it were the only one."""
+    rng = ctx.rng
+    pool = ["", "x", "x\n", "x\n\n", "x\n\n\n", "\n", "\n\n", "\n\ny\n", "\n\n\ny", " \n \n", "a \r\n\r\n\r\nb", "\r\n\r\ny\r\n", "a\t\n\n\n\nb \n\n"]
+    seqs = []
+    for pps in [p for p in PPS if p]:
+        for a in pool:
+            for b in pool:
+                seqs.append((pps, [a, b]))
+    n_rand = 300 if ctx.quick else 5000
+    for _ in range(n_rand):
+        pps = rng.choice([p for p in PPS if p])
+        seqs.append((pps, [rng.choice(pool) + rng.choice(pool) for _ in range(rng.randint(2, 4))]))
+    scratch = ctx.scratch / "files"
+    scratch.mkdir(exist_ok=True)
+    reqs, chunked = [], []
+    for pps, texts in seqs:
+        files = []
+        for t in texts:
+            L = len(t)
+            cuts = sorted(rng.choices(range(0, L + 1), k=rng.randint(0, 3))) if L else []
+            parts = [t[a:b] for a, b in zip([0] + cuts, cuts + [L])] or [""]
+            files.append(parts)
+        chunked.append(files)
+        reqs.append("files " + ",".join(pps) + " " + "/".join("|".join(enc(c) for c in f) for f in files))
+    model = drv.ask(reqs) if drv is not None else [None] * len(reqs)
+    for (pps, texts), files, m in zip(seqs, chunked, model):
+        got = impl_files(pps, files, scratch)
+        ctx.case(("files", tuple(pps), tuple(tuple(f) for f in files)), True)
+        ctx.count("multi_file_runs")
+        if m is not None:
+            ctx.traces += 1
+            if [dec(x) for x in m.split("/")] != got:
+                ctx.disagree("linebuf-files", {"pps": pps, "files": files}, [dec(x) for x in m.split("/")], got)
+        for k, t in enumerate(texts):
+            alone = impl_run(pps, [t])
+            if got[k] != alone:
+                ctx.fail({"kind": "file-depends-on-earlier-files"},
+                         "a file's post-processed text depends on the files generated before it (processor state carried over)",
+                         {"pps": pps, "files": files, "index": k, "output": got[k], "alone": alone})
+                break
+    ctx.sample({"stream": "files", "pps": seqs[-1][0], "files": chunked[-1], "outputs": impl_files(seqs[-1][0], chunked[-1], scratch)})
 
 
 def replay(ctx, path):
